@@ -64,7 +64,9 @@ def pair_cells(quick):
     for i, ca in enumerate(CLASSES):
         for j, cb in enumerate(CLASSES):
             for oi, op in enumerate(("add", "matmul", "sub", "mul")):
-                if quick:
+                if quick and i == j:
+                    bps = [0, 1, (i * 7 + j * 3 + oi) % len(BATCH_PAIRS)]
+                elif quick:
                     if op in ("sub", "mul") and (i + j) % 4 != oi - 2:
                         continue
                     if op == "matmul" and (i + j) % 2 and ca not in MATMUL_SPECIAL and cb not in MATMUL_SPECIAL:
@@ -389,6 +391,81 @@ def gen_comp(rng, cell):
     return {"p": op, "a": a, "b": b}
 
 
+# batch-shape pairs of EQUAL rank that broadcast through singleton dimensions in different positions
+SING_PAIRS = [([3], [1]), ([1], [3]), ([2, 3], [2, 1]), ([2, 1], [2, 3]), ([2, 1], [1, 3]), ([1, 3], [2, 1])]
+BC2_OPS = ["add", "sub", "matmul", "mul"]
+BC2_FOLLOW = ["sum0", "sum_last", "unsq0", "unsq_last", "expand_lead", "mT", "mul_py", "mul_pyneg", "jitter", "perm_rev", "tr_batch", "sum0_mT"]
+
+
+def bc2_cells(quick):
+    """two steps: a binary operation on operands whose batch shapes have equal rank and broadcast through singleton dimensions,
+    followed by every batch reduction / rewrite of the result"""
+    out = []
+    n = len(CLASSES)
+    for i, ca in enumerate(CLASSES):
+        partners = [ca, "Diag", CLASSES[(i * 7 + 3) % n]] if quick else [ca, "Dense", "Diag", "ConstantDiag", CLASSES[(i * 7 + 3) % n], CLASSES[(i * 11 + 5) % n]]
+        for pi, cb in enumerate(dict.fromkeys(partners)):
+            ops_ = ["add", BC2_OPS[1 + (i + pi) % 3]] if quick else BC2_OPS
+            for oi, op in enumerate(ops_):
+                sps = [(i + 2 * pi + oi) % len(SING_PAIRS)] if quick else [(i + 2 * pi + oi) % len(SING_PAIRS), (i + pi + 3 * oi + 3) % len(SING_PAIRS)]
+                for sp in sps:
+                    two = len(SING_PAIRS[sp][0]) == 2
+                    sums = ["sum0", "sum_last"] if two else ["sum0"]
+                    rest = [f for f in BC2_FOLLOW if f not in ("sum0", "sum_last") and (two or f not in ("perm_rev", "tr_batch"))]
+                    follows = sums + ([rest[(i + pi + oi) % len(rest)], rest[(i + 3 * pi + oi + 4) % len(rest)]] if quick else rest)
+                    for f in dict.fromkeys(follows):
+                        out.append(("bc2", op, ca, cb, sp, f))
+    return out
+
+
+def gen_bc2(rng, cell):
+    _, op, ca, cb, sp, f = cell
+    ba, bb = SING_PAIRS[sp]
+    pa, pb, skip = want_psd(op, ca, cb)
+    if skip:
+        raise OutOfDomain()
+    first = {"p": op, "a": leaf(g.inst(rng, ca, ba, N, psd=pa)), "b": leaf(g.inst(rng, cb, bb, N, psd=pb))}
+    rb = [max(x, y) for x, y in zip(ba, bb)]
+    if f == "sum0_mT":
+        return {"p": "transpose", "a": {"p": "sum", "a": first, "dim": 0}, "d1": -1, "d2": -2}
+    return _unary_on(first, f, rng, rb)
+
+
+RED_KINDS = ["sum0", "sum_last", "sum_mid", "prod0"]
+
+
+def red_cells(quick):
+    """results of batch reductions (SumBatchLinearOperator and the class-specific _sum_batch / _prod_batch results) as BOTH
+    operands of every binary operation (also transposed on the left)"""
+    out = []
+    n = len(CLASSES)
+    for i, ca in enumerate(CLASSES):
+        partners = [ca, CLASSES[(i * 5 + 2) % n]] if quick else [ca, "Dense", "Diag", "Toeplitz", CLASSES[(i * 5 + 2) % n], CLASSES[(i * 3 + 7) % n]]
+        for pi, cb in enumerate(dict.fromkeys(partners)):
+            ops_ = ["matmul", "add", ["sub", "mul", "tmatmul"][(i + pi) % 3]] if quick else ["matmul", "add", "sub", "mul", "tmatmul"]
+            for oi, op in enumerate(ops_):
+                kinds_ = [RED_KINDS[(i + pi + oi) % 3]] if quick else RED_KINDS[:3]
+                if ca in ("Dense", "Diag", "ConstantDiag", "Identity") and cb in ("Dense", "Diag", "ConstantDiag", "Identity"):
+                    kinds_ = list(kinds_) + ["prod0"]        # exact _prod_batch overrides (no root decomposition)
+                for rk in kinds_:
+                    out.append(("red", op, ca, cb, rk))
+    return out
+
+
+def gen_red(rng, cell):
+    _, op, ca, cb, rk = cell
+    b, dim = {"sum0": ([3], 0), "sum_last": ([2, 3], -3), "sum_mid": ([2, 3], 0), "prod0": ([2], 0)}[rk]
+    psd = op == "mul" and not (ca in DIAG_FAMILY or "Dense" in (ca, cb))
+    if psd and (ca not in g.PSD_OK or cb not in g.PSD_OK):
+        raise OutOfDomain()
+    red = "prod" if rk == "prod0" else "sum"
+    ra = {"p": red, "a": leaf(g.inst(rng, ca, b, N, psd=psd)), "dim": dim}
+    rb = {"p": red, "a": leaf(g.inst(rng, cb, b, N, psd=psd)), "dim": dim}
+    if op == "tmatmul":
+        return {"p": "matmul", "a": {"p": "transpose", "a": ra, "d1": -1, "d2": -2}, "b": rb}
+    return {"p": op, "a": ra, "b": rb}
+
+
 ROOT_KINDS = ["alr1", "alr2", "cat_rows", "prod0", "prod_last"]
 
 
@@ -490,7 +567,7 @@ def gen_prog(rng, idx, depth):
 
 
 def all_cells(quick):
-    cells = pair_cells(quick) + scalar_cells(quick) + shape_cells(quick) + root_cells(quick) + comp_cells(quick)
+    cells = pair_cells(quick) + scalar_cells(quick) + shape_cells(quick) + root_cells(quick) + comp_cells(quick) + bc2_cells(quick) + red_cells(quick)
     nprog = 240 if quick else 1500
     for i in range(nprog):
         cells.append(("prog", i, 2 + i % 3 if quick else 2 + i % 5))
@@ -508,6 +585,10 @@ def gen_cell(rng, cell):
         return gen_root(rng, cell)
     if cell[0] in ("comp", "compshape", "catb"):
         return gen_comp(rng, cell)
+    if cell[0] == "bc2":
+        return gen_bc2(rng, cell)
+    if cell[0] == "red":
+        return gen_red(rng, cell)
     return gen_prog(rng, cell[1], cell[2])
 
 
@@ -622,7 +703,7 @@ def cause_of(k):
     if op in ("add_diagonal", "add_jitter") and cul == "Zero" and exc in ("zero-add-diag-incompatible", "zero-add-diag-rank", "expand-size-mismatch") \
             and (k.get("nbatch") or 0) >= 2:
         return "zero-add-diagonal-multibatch"
-    if op in ("sum", "prod") and cul == "KroneckerProductDiag" and exc == "krondiag-components":
+    if op in ("sum", "prod") and exc == "krondiag-components" and (cul == "KroneckerProductDiag" or k.get("krondiag_inside")):
         return "krondiag-sum-batch"
     return None
 
@@ -707,6 +788,8 @@ def fail_key(j):
     cul = culprit_of(j)
     if cul is not None:
         key["culprit"] = cul
+    if n["p"] in ("sum", "prod"):
+        key["krondiag_inside"] = "KronDiag" in leaf_classes(n)
     key["cause"] = cause_of(key)
     return key
 
